@@ -23,7 +23,7 @@ RULE = ("a probe model M is observed (argument names and values, state map, RHS 
         "process-global caches are recorded; non-trivial = history contains >= 1 compile of a model related to M; distinct = "
         "distinct (M, history) hash")
 DECIDING = ['observations_compared', 'earlier_functions_rechecked', 'hist_steps', 'hist_compiles', 'hist_no_clear_compiles',
-            'hist_exceptions', 'hist_same_opname', 'hist_same_objects', 'shared_subcircuit_cases', 'hist_shared_update_var', 'input_history_cases', 'revectorize_cases']
+            'hist_exceptions', 'hist_same_opname', 'hist_same_objects', 'shared_subcircuit_cases', 'hist_shared_update_var', 'input_history_cases', 'revectorize_cases', 'fortran_file_name_cases']
 ASSUMPTIONS = ['the probe model is observed through fresh template objects built from its spec (the state carry-over of a '
                'template object is documented statefulness, DESIGN 4a)']
 CASE_TIMEOUT = 300
@@ -46,6 +46,8 @@ def plan(tier, seed):
     cases += [{'family': 'input_history', 'cseed': rnd.randrange(1 << 30)} for _ in range(20 if tier == 'quick' else 400)]
     # the same template object compiled / simulated in vectorized form (clear=True) and then in scalar form, and vice versa
     cases += [{'family': 'revectorize', 'cseed': rnd.randrange(1 << 30)} for _ in range(24 if tier == 'quick' else 500)]
+    # Fortran backend: models compiled one after the other under the same output file name
+    cases += [{'family': 'fortran_file_name', 'cseed': rnd.randrange(1 << 30)} for _ in range(10 if tier == 'quick' else 150)]
     return cases
 
 
@@ -499,7 +501,59 @@ def run_revectorize_case(case, ctx):
     return res
 
 
+def run_fortran_case(case, ctx):
+    """1-2 other scalar models are compiled for the Fortran backend, then the probe model - all under the same file name (the
+    default one, or an explicit one), with clear on/off; the probe's function must compute the probe model (reference RHS)."""
+    import mpmath
+    mpmath.mp.dps = 40
+    rnd = random.Random(case['cseed'])
+    mech = {}
+
+    def small():
+        return gen.gen_net(rnd, pool=gen.SAFE_POOL, n_nodes=rnd.choice([1, 2]), max_types=2, depth=0, forbid=ctx['excluded'],
+                           edge_density=0.3, unique_types=True)[0]
+    M = small()
+    others = [small() for _ in range(rnd.randint(1, 2))]
+    fname = rnd.choice([None, None, 'shared_mod'])
+    hist = [{'clear': rnd.random() < 0.5} for _ in others]
+    res = {'features': ['fortran_file_name', 'default_name' if fname is None else 'explicit_name'], 'risk': [],
+           'sig': stable_hash([M, others, fname, hist]), 'nontrivial': True}
+    kw = {'file_name': fname} if fname else {}
+    try:
+        for spec_i, h in zip(others, hist):
+            try:
+                observe.compile_vf(spec_i, vectorize=False, backend='fortran', clear=h['clear'], **kw)
+            except Exception as e:
+                import traceback
+                raise observe.Mismatch(f"loud: history compile (fortran) raised {type(e).__name__}: {e} :: {traceback.format_exc()[-300:]}")
+            mech['hist_compiles'] = mech.get('hist_compiles', 0) + 1
+            if not h['clear']:
+                mech['hist_no_clear_compiles'] = mech.get('hist_no_clear_compiles', 0) + 1
+        mech['hist_steps'] = len(others)
+        ref = RefModel(M)
+        try:
+            obs = observe.compile_vf(M, vectorize=False, backend='fortran', clear=True, **kw)
+        except Exception as e:
+            import traceback
+            raise observe.Mismatch(f"loud: probe model (fortran, file name {fname or 'default'}) raised {type(e).__name__}: {e} :: "
+                                   f"{traceback.format_exc()[-300:]}")
+        try:
+            observe.compare_vf(obs, ref, rnd, mpmath, n_points=3, vectorized=False, mech=mech, perturb=False)
+        except observe.Mismatch as e:
+            raise observe.Mismatch(f"Fortran build of the probe model after {len(others)} earlier Fortran build(s) under the same file name "
+                                   f"({fname or 'default'}; clear flags {[h['clear'] for h in hist]}): {e}")
+        mech['observations_compared'] = 1
+        mech['fortran_file_name_cases'] = 1
+        res.update(status='ok', symptom='', mech=mech, sample={'file_name': fname, 'history': hist})
+    except observe.Mismatch as e:
+        s2 = str(e)
+        res.update(status='violation', symptom=('silent: ' if 'loud' not in s2 else '') + s2, mech=mech, spec={'M': M})
+    return res
+
+
 def run_case(case, ctx):
+    if case.get('family') == 'fortran_file_name':
+        return run_fortran_case(case, ctx)
     if case.get('family') == 'revectorize':
         return run_revectorize_case(case, ctx)
     if case.get('family') == 'shared_subcircuits':
